@@ -31,7 +31,7 @@ schema({
     "SortFieldsCustomMiddleware": {"_case_sensitive": "bool", "_order": "list:str"},
     "_NameTransformerMiddleware": {"_name_fields": "any"},
     "MergeNameParts": {"style": "any"},
-    "Splitter": {"bibstr": "str", "_markiter": "any", "_unaccepted_mark": "match", "_current_line": "int",
+    "Splitter": {"bibstr": "str", "_markiter": "iter:marks", "_unaccepted_mark": "match", "_current_line": "int",
                  "_current_char_index": "int", "_open_brackets": "int", "_is_quote_open": "bool",
                  "_expected_next": "any", "_implicit_comment_start_line": "int", "_implicit_comment_start": "any"},
 })
